@@ -40,6 +40,14 @@ func genConf(r *gen.Rand) conf {
 	cf.CacheCtl = r.Chance(1, 4)
 	cf.Polite = cf.VStore && cf.Inv && r.Chance(2, 3)
 	cf.ReuseCtx = r.Bool()
+	cf.KeepSlices = cf.VStore && r.Chance(1, 3)
+	if r.Chance(1, 6) {
+		// keys that look like the middleware's own key decoration
+		all := []string{"r", "r_HEAD", "r_GET", "r_POST", "r_body", "r_GET_body", "r_HEAD_body", "r_POST_body"}
+		gen.Shuffle(r, all[1:])
+		cf.KeyNames = all[:r.Range(3, 6)]
+		cf.Methods = [][]string{{"GET", "HEAD", "POST"}, {"GET", "HEAD", "POST"}, nil, {"GET", "POST"}}[r.Intn(4)]
+	}
 	return cf
 }
 
@@ -141,7 +149,14 @@ func ccGen(r *gen.Rand, q *rq, pNoCache, pNoStore, den int) {
 
 func genReq(r *gen.Rand, cf conf, nkeys int) rq {
 	q := rq{Key: fmt.Sprintf("k%d", r.Intn(nkeys))}
-	switch r.Intn(20) {
+	if cf.KeyNames != nil {
+		q.Key = cf.KeyNames[r.Intn(len(cf.KeyNames))]
+	}
+	mix := 20
+	if cf.KeyNames != nil {
+		mix = 10 // more HEAD / POST among suffix-like keys
+	}
+	switch r.Intn(mix) {
 	case 0, 1:
 		q.Method = "HEAD"
 	case 2, 3:
